@@ -246,6 +246,17 @@ def creation_routes(code: str, v: int, classes):
           ('create-pack-positional', 'pack-pos', lambda: B(pack(code, v))),
           ('create-pack-eqvalue', 'pack-eq', lambda: B(pack(f'{code}={v}'))),
           ('create-pack-keyword', 'pack-kw', lambda: B(pack(f'{code}=val', val=v)))]
+    # the same integer as TEXT (how every token string delivers it), in decimal spellings that int() reads as v
+    sign = '-' if v < 0 else ''
+    texts = {'plain': str(v), 'zero-padded': f'{sign}00{abs(v)}', 'plus': f'+{v}' if v >= 0 else str(v), 'spaced': f' {v} '}
+    if abs(v) >= 1000:
+        texts['underscore'] = f'{sign}{abs(v) // 1000}_{abs(v) % 1000:03d}'
+    for nm, t in texts.items():
+        r += [('create-keyword', f'kw-text-{nm}', lambda t=t: B(Bits(**{code: t}))),
+              ('create-build', f'build-text-{nm}', lambda t=t: B(Dtype(code).build(t))),
+              ('create-pack-positional', f'pack-pos-text-{nm}', lambda t=t: B(pack(code, t))),
+              ('create-token', f'token-text-{nm}', lambda t=t: B(Bits(f'{code}={t}'))),
+              ('create-property', f'prop-text-{nm}', lambda t=t: _setprop('BitStream', code, t))]
     # the same integer as a fixed-width numpy scalar (an integer whatever its class; arithmetic on it must not wrap at its own width)
     for nm, lo, hi in NUMPY_INTS:
         if lo <= v <= hi:
